@@ -307,6 +307,53 @@ def check_history(ctx, comps):
         ctx.report(f'history-raises:{type(e).__name__}@{raising_site(e)[0]}', f'{e!r}', w)
 
 
+def check_argument_reuse(ctx, rng, comps, other):
+    """The caller's own list object is an input only through its CONTENT: the same list is handed to a conversion, edited in place
+    (a component replaced by one of the same length / appended / removed - a consumer stepping through segments), and handed over
+    again; nothing else is converted in between."""
+    if not comps or not all(canonical_number(c) for c in comps) or not canonical_number(other):
+        return
+    convs = [('to_bytes', lambda L: bytes(Name.to_bytes(L)), lambda cs: rc.enc_name(cs)),
+             ('to_str', lambda L: Name.to_str(L), lambda cs: rc.name_to_uri(cs, canonical=False)),
+             ('to_canonical_uri', lambda L: Name.to_canonical_uri(L), lambda cs: rc.name_to_uri(cs, canonical=True)),
+             ('normalize', lambda L: [bytes(c) for c in Name.normalize(L)], lambda cs: list(cs)),
+             ('encoded_length', lambda L: Name.encoded_length(L), lambda cs: len(rc.enc_name(cs))),
+             ('is_prefix-of-itself-extended', lambda L: Name.is_prefix(L, rc.enc_name(list(comps) + [other])), None)]
+    for kind in ('bytes', 'bytearray', 'str'):
+        def mk(c):
+            return bytes(c) if kind == 'bytes' else bytearray(c) if kind == 'bytearray' else rc.comp_to_canonical_uri(c)
+        for label, fn, ref in convs:
+            if label == 'encoded_length' and kind == 'str':
+                continue        # (takes names in component form only)
+            L = [mk(c) for c in comps]
+            cur = list(comps)
+            try:
+                fn(L)
+                for edit in ('replace-last', 'append', 'pop', 'replace-first'):
+                    if edit == 'replace-last':
+                        L[-1] = mk(other)
+                        cur[-1] = other
+                    elif edit == 'append':
+                        L.append(mk(other))
+                        cur.append(other)
+                    elif edit == 'pop':
+                        L.pop()
+                        cur.pop()
+                    else:
+                        L[0] = mk(other)
+                        cur[0] = other
+                    got = fn(L)
+                    exp = ref(cur) if ref is not None else (cur == (list(comps) + [other])[:len(cur)])
+                    ctx.event('same-list-object-converted-again-after-an-in-place-edit')
+                    if got != exp:
+                        ctx.report(f'conversion-remembers-the-list-object:{label}', f'{label} of a list that was edited in place ({edit}) since it was last converted '
+                                   f'does not reflect the edit', {'name_now': [c.hex() for c in cur], 'form': kind, 'edit': edit, 'got': got if not isinstance(got, bytes) else got.hex()})
+                        break
+            except Exception as e:   # noqa
+                ctx.report(f'argument-reuse-raises:{label}:{type(e).__name__}@{raising_site(e)[0]}', f'{e!r}', {'name': [c.hex() for c in comps], 'form': kind})
+
+
+
 RAW_TEXTS = ['cafe\u0301', 'e\u0301cole', 'A\u030angstro\u0308m', '\u212b', '\u2126', '\ufb01n', '\u1112\u1161\u11ab', '\uf900', 'stra\u00dfe', '\u0130stanbul',
              # text that looks like a URI scheme / host:port at the start of a relative name (no scheme is stripped)
              'sensor:1', 'localhost:6363', 'urn:isbn:0451450523', 'ndn:x', 'http:', 'a+b.c-d:e',
@@ -400,6 +447,8 @@ def run(ctx):
         check_name(ctx, comps)
         if i % 4 == 0:
             check_history(ctx, comps)
+        if i % 6 == 1 and comps and len(rc.enc_name(comps)) < 2000:
+            check_argument_reuse(ctx, rng, comps, rng.choice([rc.comp(50, rc.enc_nni(rng.choice([1, 7, 300]))), rc.comp(8, b'nxt'), rc.comp(8, bytes(comps[-1][2:])[::-1]) if len(comps[-1]) < 200 else rc.comp(8, b'r')]))
         if comps:
             component_api(ctx, comps[rng.randrange(len(comps))])
         ctx.case(rc.enc_name(comps)[:96], sample={'uri': rc.name_to_uri(comps, canonical=True)} if i % 1500 == 7 else None,
@@ -436,7 +485,7 @@ def run(ctx):
         ctx.case(None, nontrivial=False, count=len(pool) ** 2)
         ctx.extra['all_pairs_pool'] = len(pool)
     for k in ('wire', 'canonical-uri', 'uri', 'normalize', 'is-prefix-true', 'is-prefix-false', 'name-order',
-              'component-order', 'history', 'history-mutable-result-edited', 'is-prefix-both-uris-other-spelling'):
+              'component-order', 'history', 'history-mutable-result-edited', 'same-list-object-converted-again-after-an-in-place-edit', 'is-prefix-both-uris-other-spelling'):
         ctx.need_event(k)
     ctx.assumptions = ['URI convention is the one python-ndn documents (no extra-period rule; = and % escaped)',
                        'shorthand URI round trip is demanded only for canonically encoded typed numbers']
